@@ -303,7 +303,7 @@ func c10Make(r *prng.R, pr *c10Params) (*c10In, string) {
 				g.Script = dataScript(r, r.Bool(), prng.Pick(r, []int{16384, 16390, 20000, 40000}))
 			}
 		case k < 19:
-			g.Script = nonDataScript(r, 1+r.Intn(60))
+			g.Script = nonDataOutputScript(r, 1+r.Intn(60))
 		default:
 			g.Script = []byte{}
 		}
